@@ -50,6 +50,17 @@ impl TargetWatcher {
                                     path.display(),
                                 );
                             }
+                            // The watcher reports a missing path as an IO error when stat'ing it
+                            Err(notify::Error {
+                                kind: ErrorKind::Io(ref io_error),
+                                ..
+                            }) if io_error.kind() == std::io::ErrorKind::NotFound => {
+                                log::warn!(
+                                    "{} - Skipping watch on non-existing path: {}",
+                                    target_id,
+                                    path.display(),
+                                );
+                            }
                             Err(e) => {
                                 return Err(Error::new(e).context(format!(
                                     "Error watching path {} for target {}",
